@@ -90,6 +90,107 @@ theorem lock_released (t0 : Toc) (scripts : Nat → List Step) (hd : Disciplined
   · intro hfree v x r hx
     simp [stepW, setW, hx, hfree]
 
+/-- **C04.trace_is_script.**  What the predicate evaluated on logged writer lifetimes says in terms
+    of the machine: a lifetime accepted by `TraceDiscipline` is either a lone failed acquire, or
+    the complete sequence of steps of a script satisfying `LockDiscipline` (the script the
+    theorems above quantify over). -/
+theorem trace_is_script (tr : List TEv) (h : TraceDiscipline tr = true) :
+    tr = [.acquire false] ∨
+    (∃ r, tr = .acquire true :: r) ∧ LockDiscipline (tr.map TEv.toStep) = true := by
+  match tr, h with
+  | [.acquire false], _ => exact Or.inl rfl
+  | .acquire true :: r, h => exact Or.inr ⟨⟨r, rfl⟩, by simpa [TraceDiscipline, TEv.toStep] using h⟩
+
+/-- **C04.failed_acquire_inert.**  "Fails with LockError instead of proceeding": a writer whose
+    `tryLock` meets a held lock does nothing then or ever after — whatever the rest of its script
+    was and however often it is scheduled, lock holder, TOC and commit list stay as they are.
+    (This is the machine-side meaning of the logged lifetime `[acquire false]`.) -/
+theorem failed_acquire_inert (s : State) (w u : Nat) (r : List Step)
+    (hheld : s.holder = some u) (hs : (s.ws w).script = .tryLock :: r) (n : Nat) :
+    let s' := exec s (List.replicate (n + 1) w)
+    (s'.ws w).failed = true ∧ (s'.ws w).script = [] ∧ (s'.ws w).holds = (s.ws w).holds ∧
+    s'.holder = s.holder ∧ s'.toc = s.toc ∧ s'.commits = s.commits ∧
+    ∀ v, v ≠ w → s'.ws v = s.ws v := by
+  have h1 : stepW s w = setW s w { s.ws w with script := [], failed := true } := by
+    simp [stepW, hs, hheld]
+  have hidle : ∀ (t : State), (t.ws w).script = [] → ∀ m, exec t (List.replicate m w) = t := by
+    intro t ht m
+    induction m with
+    | zero => rfl
+    | succ m ih =>
+      show exec (stepW t w) (List.replicate m w) = t
+      have : stepW t w = t := by simp [stepW, ht]
+      rw [this]; exact ih
+  intro s'
+  have hs' : s' = setW s w { s.ws w with script := [], failed := true } := by
+    show exec (stepW s w) (List.replicate n w) = _
+    rw [h1]
+    exact hidle _ (by simp [setW]) n
+  rw [hs']
+  refine ⟨by simp [setW], by simp [setW], by simp [setW], rfl, rfl, rfl, ?_⟩
+  intro v hv
+  simp [setW, hv]
+
+/-- one step of writer `w` consumes the head of its script, or (failed `tryLock`) all of it -/
+theorem stepW_script (t : State) (w : Nat) :
+    ((stepW t w).ws w).script = (t.ws w).script.tail ∨ ((stepW t w).ws w).script = [] := by
+  unfold stepW
+  simp only
+  cases hsc : (t.ws w).script with
+  | nil => right; simp [hsc]
+  | cons st r =>
+    cases st with
+    | tryLock => simp only; cases t.holder <;> simp [setW]
+    | readToc => left; simp [setW]
+    | work op => left; simp [setW]
+    | io => left; simp [setW]
+    | writeToc => simp only; cases (t.ws w).base <;> simp [setW]
+    | release => simp only; split <;> simp [setW]
+
+theorem exec_idle (x : State) (w : Nat) (hx : (x.ws w).script = []) (k : Nat) :
+    exec x (List.replicate k w) = x := by
+  induction k with
+  | zero => rfl
+  | succ k ihk =>
+    show exec (stepW x w) (List.replicate k w) = x
+    have : stepW x w = x := by simp [stepW, hx]
+    rw [this]; exact ihk
+
+/-- **C04.script_runs_to_release.**  A disciplined script runs, left alone, to its end and hands
+    the lock back (or gives up at once with `LockError`): the executed steps of a successful
+    lifetime are exactly the script. -/
+theorem script_runs_to_release (t0 : Toc) (scripts : Nat → List Step) (hd : Disciplined scripts)
+    (sched : List Nat) (w : Nat) :
+    let s := exec (init t0 scripts) sched
+    let s' := exec s (List.replicate (s.ws w).script.length w)
+    (s'.ws w).script = [] ∧ (s'.ws w).holds = false := by
+  intro s s'
+  have key : ∀ (m : Nat) (t : State), (t.ws w).script.length = m →
+      ((exec t (List.replicate m w)).ws w).script = [] := by
+    intro m
+    induction m with
+    | zero =>
+      intro t ht
+      exact List.eq_nil_of_length_eq_zero ht
+    | succ m ih =>
+      intro t ht
+      show ((exec (stepW t w) (List.replicate m w)).ws w).script = []
+      rcases stepW_script t w with h | h
+      · apply ih
+        rw [h, List.length_tail, ht]; rfl
+      · rw [exec_idle _ w h m]; exact h
+  have h1 := key _ s rfl
+  refine ⟨h1, ?_⟩
+  have hinv : Inv t0 s' := by
+    show Inv t0 (exec (exec (init t0 scripts) sched) _)
+    exact inv_exec (inv_exec (inv_init t0 scripts hd) sched) _
+  cases hinv.phase w with
+  | idle a b c d e => exact a
+  | done a b => exact a
+  | locked r' a b c d e f => rw [h1] at e; cases e
+  | ready a b c d => rw [h1] at d; simp [tailOK] at d
+  | written a b c => rw [h1] at c; simp [postOK] at c
+
 /-! ### A concrete instance -/
 namespace Example
 
